@@ -56,7 +56,9 @@ def __i{name}__(self, other):
         if ndim == 0:
             for i in self.rows: i._i{name}_scalar(other) 
         elif ndim == 1:
-            for i in self.rows: i._i{name}_array(other) 
+            rows = self.rows
+            if any([i is other for i in rows]): other = other.copy() # operand is a row of the target
+            for i in rows: i._i{name}_array(other) 
         elif ndim == 2:
             rows = self.rows
             if len(rows) != len(other): raise ValueError('shape mismatch between arrays')
